@@ -51,6 +51,11 @@ Step(e) ==
             \* ServerReg!Inv_OneRouterPerTopic seen from outside: peers told Ok on one name reach each other
             IF e.res = "ok" THEN Stutter
             ELSE Flag(IF e.pattern = "pubsub" THEN {"C01"} ELSE {"C02"}, "concurrently_registered_peers_of_one_topic_do_not_reach_each_other")
+      \* a server that has been up for a while (many connections have come and gone): every stream open
+      \* answered like the first
+      [] e.ev = "longlife" ->
+            IF e.connect_failed = 0 /\ e.not_ok = 0 THEN Stutter
+            ELSE Flag({"C11", "C17"}, "stream_open_unanswered_after_many_connections")
       [] e.ev = "probe" ->
             IF e.res = "ok" THEN Stutter ELSE Flag({"C11", "C08"}, "topic_unusable_after_frame_sequence_" \o e.pattern)
       [] e.ev = "other_topic_roundtrip" ->
